@@ -1,6 +1,8 @@
+mod c16;
 mod hist;
 mod sim;
 
+use mithril_common::entities::SignedEntityTypeDiscriminants;
 use serde_json::{json, Value};
 use std::path::PathBuf;
 use std::process::Command;
@@ -19,6 +21,12 @@ fn main() {
             hist::install_panic_recorder();
             let rt = tokio::runtime::Builder::new_multi_thread().worker_threads(2).enable_all().build().unwrap();
             rt.block_on(c14_child(&args));
+        }
+        "C16" => c16_parent(&args),
+        "C16-child" => {
+            hist::install_panic_recorder();
+            let rt = tokio::runtime::Builder::new_multi_thread().worker_threads(2).enable_all().build().unwrap();
+            rt.block_on(c16_child(&args));
         }
         other => {
             eprintln!("mon-agg: unknown property {other}");
@@ -198,6 +206,111 @@ async fn one_history(mon: &mut Monitor, rng: &mut rand_chacha::ChaCha20Rng, dir:
         mon.sample(json!({"history": hid, "events": run.log.len(), "certificates": run.prev.certificates.len(),
             "first_events": run.log.iter().take(12).map(|e| json!({"event": e["event"], "state_after": e["state_after"]})).collect::<Vec<_>>()}));
     }
+    run.sim.builder.drop_sqlite_connections().await;
+    Ok(())
+}
+
+fn c16_parent(args: &vcore::Args) {
+    let mut mon = Monitor::new(args);
+    let (shards, timeout) = match args.tier {
+        Tier::Quick => (16, 600),
+        Tier::Thorough => (96, 3600),
+    };
+    run_children(&mut mon, "C16-child", shards, vcore::default_threads().min(16), &[], timeout);
+    let min = match args.tier {
+        Tier::Quick => 40,
+        Tier::Thorough => 400,
+    };
+    mon.finish(
+        "rounds over the real aggregator (same wiring as C14): for an open message (all five signed entity types; before it exists => buffered path) the honest signatures of the epoch's signer set are computed, then a shuffled sequence of honest submissions and adversarial ones (own sigma under another registered name, copy of another party's sigma under own name with matching / truncated index list, the same under an unregistered name, replay, honest with restricted index list) is delivered through the certifier API (unauthenticated / authenticated), the real HTTP route (warp router built by DependenciesBuilder::create_http_routes), and the message-queue SequentialSignatureProcessor with a scripted consumer; after EVERY submission the single_signature / buffered_single_signature tables are read through an independent connection and judged; then the round is sealed and metadata.signers judged. Non-trivial = an adversarial submission; distinct = (history, entity, variant, channel, position).",
+        &["ground truth: the harness generated every sigma itself and knows its producer; cross-checked cryptographically with mithril-stm under the labelled party's registered key", "on the message queue the party id is derived from the sender's certificate, so 'own sigma under another name' is only sent through HTTP / API", "C14's checks run on the same histories as a by-product"],
+        min,
+    );
+}
+
+async fn c16_child(args: &vcore::Args) {
+    let shard: u64 = arg_value(args, "shard").and_then(|s| s.parse().ok()).unwrap_or(0);
+    let out = PathBuf::from(arg_value(args, "out").unwrap_or_else(|| "/tmp/c16-child.json".into()));
+    let dir = PathBuf::from(arg_value(args, "dir").unwrap_or_else(|| "/tmp/c16-child-data".into()));
+    let mut mon = Monitor::with("C16", args.tier, args.seed);
+    let histories = match args.tier {
+        Tier::Quick => 2,
+        Tier::Thorough => 10,
+    };
+    for h in 0..histories {
+        let hid = format!("seed{}-shard{}-h{}", args.seed, shard, h);
+        let hdir = dir.join(format!("h{h}"));
+        let _ = std::fs::remove_dir_all(&hdir);
+        let mut rng = mon.rng("c16", shard * 1000 + h);
+        match c16_history(&mut mon, &mut rng, hdir.clone(), &hid).await {
+            Ok(()) => mon.count("histories_completed"),
+            Err(e) => {
+                mon.count("histories_discarded_harness_error");
+                if std::env::var("VERIF_DEBUG").is_ok() {
+                    eprintln!("history {hid} discarded: {e:#}");
+                }
+            }
+        }
+        let _ = std::fs::remove_dir_all(&hdir);
+    }
+    let _ = std::fs::write(&out, serde_json::to_string(&mon.dump()).unwrap());
+}
+
+async fn c16_history(mon: &mut Monitor, rng: &mut rand_chacha::ChaCha20Rng, dir: PathBuf, hid: &str) -> anyhow::Result<()> {
+    let mut run = hist::Run::start(dir, rng).await?;
+    let all: Vec<usize> = (0..run.n_signers()).collect();
+    let boot = vec![hist::Ev::Tick, hist::Ev::Register { who: all.clone() }, hist::Ev::EpochUp(1), hist::Ev::Tick, hist::Ev::Tick, hist::Ev::Register { who: all.clone() }];
+    for ev in boot {
+        run.apply(&ev, mon).await?;
+        hist::check_step(&mut run, mon, hid).await?;
+    }
+    let rounds = 10 + rnd::usize_below(rng, 8);
+    for _ in 0..rounds {
+        // create a fresh stimulus, optionally attack before the open message exists (buffered path)
+        let stimulus = rnd::below(rng, 10);
+        let early = rnd::chance(rng, 1, 3);
+        let disc = match stimulus {
+            0..=2 => {
+                run.apply(&hist::Ev::NewImmutable, mon).await?;
+                SignedEntityTypeDiscriminants::CardanoDatabase
+            }
+            3..=4 => {
+                run.apply(&hist::Ev::Blocks(30 + rnd::below(rng, 30)), mon).await?;
+                if rnd::chance(rng, 1, 2) { SignedEntityTypeDiscriminants::CardanoTransactions } else { SignedEntityTypeDiscriminants::CardanoBlocksTransactions }
+            }
+            5 => {
+                run.apply(&hist::Ev::EpochUp(1), mon).await?;
+                run.apply(&hist::Ev::Tick, mon).await?;
+                run.apply(&hist::Ev::Tick, mon).await?;
+                run.apply(&hist::Ev::Register { who: all.clone() }, mon).await?;
+                SignedEntityTypeDiscriminants::MithrilStakeDistribution
+            }
+            _ => {
+                let open = run.open_discriminants();
+                if open.is_empty() { SignedEntityTypeDiscriminants::MithrilStakeDistribution } else { *rnd::pick(rng, &open) }
+            }
+        };
+        hist::check_step(&mut run, mon, hid).await?;
+        if !early {
+            // let the state machine open the message
+            for _ in 0..3 {
+                run.apply(&hist::Ev::Tick, mon).await?;
+                hist::check_step(&mut run, mon, hid).await?;
+            }
+        }
+        let ran = c16::round(&mut run, disc, early, rng, mon, hid).await?;
+        if !ran {
+            mon.count("rounds_skipped");
+            // keep the aggregator moving: sign whatever is open
+            let open = run.open_discriminants();
+            if let Some(d) = open.first() {
+                run.apply(&hist::Ev::Sign { disc: *d, who: all.clone(), mode: hist::SignMode::Valid, authenticated: true }, mon).await?;
+            }
+            run.apply(&hist::Ev::Tick, mon).await?;
+            hist::check_step(&mut run, mon, hid).await?;
+        }
+    }
+    hist::verify_all(&mut run, mon, hid).await?;
     run.sim.builder.drop_sqlite_connections().await;
     Ok(())
 }
